@@ -73,3 +73,6 @@ M("c06-restart-shield-before-cancelled", "C06", A, "CancelScope._restart_cancell
   "            if scope._cancel_called:\n                if scope._cancel_handle is None:\n                    scope._deliver_cancellation(scope)\n\n                break\n\n            # No point in looking beyond any shielded scope\n            if scope._shield:\n                break\n",
   "            # No point in looking beyond any shielded scope\n            if scope._shield:\n                break\n\n            if scope._cancel_called:\n                if scope._cancel_handle is None:\n                    scope._deliver_cancellation(scope)\n\n                break\n", ["R06-f"])
 M("c06-delivery-forgets-retry", "C06", A, "CancelScope._deliver_cancellation", "            should_retry = True\n            if task._must_cancel:", "            if task._must_cancel:", ["R06-f"])
+
+# from seeded change C06/g (round 4)
+M("c06-current-time-wall-clock", "C06", A, "AsyncIOBackend.current_time", "        return get_running_loop().time()", "        return __import__(\"time\").monotonic()", ["R06-g"])
